@@ -81,7 +81,9 @@ theorem zipOwnership_never_panics (extra : Bytes) : zipOwnership extra ≠ .pani
     split
     · exact parseUnix3_no_panic _
     · split
-      · exact parseUnix2_no_panic _
+      · split
+        · intro e; cases e
+        · exact parseUnix2_no_panic _
       · intro e; cases e
 
 /-! ## what the packer writes is read back -/
@@ -136,5 +138,10 @@ theorem zipOwnership_unix2_only (uid gid : Nat) (hu : uid < 65536) (hg : gid < 6
 /-- and a unix2 block cut short of its four data bytes is refused, never a panic -/
 theorem parseUnix2_short (hdr : Bytes) (h : hdr.length < 4) : parseUnix2 hdr = .corrupt := by
   simp [parseUnix2, h]
+
+/-- … except the *empty* one, which is the central-directory form Info-ZIP 2.x writes (the ids are in the local header
+    only): it says nothing about the owner, and the entry gets the default owner like one without any owner block -/
+theorem zipOwnership_unix2_central_form : zipOwnership [0x55, 0x78, 0, 0] = .ok 1000 1000 ∧ zipOwnership [] = .ok 1000 1000 := by
+  decide
 
 end Rio
